@@ -67,21 +67,23 @@ func (g *gen) Add(name string, typs []types.Type) (string, error) {
 	if !ok {
 		return "", fmt.Errorf("%s, does not return a function", name)
 	}
+	sig = derive.RenameBlankIdentifier(sig)
 	retSig = derive.RenameBlankIdentifierWith(retSig, "innerParam_")
-	// the combined function takes the outer and the inner parameters: their names must not clash
+	// the combined function takes the outer and the inner parameters: their names, as they are emitted, must not clash
 	outer := make(map[string]bool)
-	for i := 0; i < params.Len(); i++ {
-		outer[params.At(i).Name()] = true
+	for i := 0; i < sig.Params().Len(); i++ {
+		outer[sig.Params().At(i).Name()] = true
 	}
 	for i := 0; i < retSig.Params().Len(); i++ {
 		if outer[retSig.Params().At(i).Name()] {
+			sig = derive.RenameAllWith(sig, "param_")
 			retSig = derive.RenameAllWith(retSig, "innerParam_")
 			break
 		}
 	}
 	newTup := types.NewTuple(types.NewVar(retVar.Pos(), retVar.Pkg(), retVar.Name(), retSig))
 	sig = types.NewSignature(sig.Recv(), sig.Params(), newTup, sig.Variadic())
-	return g.SetFuncName(name, derive.RenameBlankIdentifier(sig))
+	return g.SetFuncName(name, sig)
 }
 
 func (g *gen) Generate(typs []types.Type) error {
